@@ -232,6 +232,14 @@ loop:
 
 			specs = append(specs, spec)
 			s = skipSpace(s)
+			if strings.HasPrefix(s, ";") {
+				// parameters after the weight (accept-ext) belong to this range: they do not end the list
+				if i := strings.IndexByte(s, ','); i >= 0 {
+					s = s[i:]
+				} else {
+					s = ""
+				}
+			}
 			if !strings.HasPrefix(s, ",") {
 				continue loop
 			}
